@@ -12,8 +12,9 @@ Layers in this file
                            commit returns, every table change happens in process_commits)
 
 Abstractions (documented, tied by the correspondence runs):
-  * Addresses are abstract: the model hands out 0,1,2,... from a counter and never reuses one
-    (the implementation pops its free-entry stack).  New nodes of one insertion are numbered
+  * Addresses are abstract: `PState` hands out 0,1,2,... from a counter and never reuses one;
+    `TState` pops a LIFO free-entry stack first, as the implementation does (one stack per size
+    tier there).  New nodes of one insertion are numbered
     post-order (children before parent), so every child address is smaller than its parent's:
     that is the creation order the acyclicity invariant talks about.  Because real and model
     addresses differ, the driver protocol names existing nodes LOGICALLY (by path, see below).
@@ -29,29 +30,50 @@ Abstractions (documented, tied by the correspondence runs):
   * Root keys are opaque (hashed-key injectivity is A-hash); node data is an opaque value `D`
     with a length (driver: tokens `v<len>_<seed>`).
 
-Driver protocol (command word `c10`, stateful; one commit = one operation)
-  c10 init <append_only|rc|plain>       -> ok          (rc = ref_counted roots; all variants are
-                                                         readable through get_tree; rc/plain also
-                                                         through direct node access)
-  c10 insert <key> <tok>...             -> ok | err:InvalidInput
-        the tree in pre-order: `n<k>:<data>` is a NEW node with k children (the next k subtrees),
-        `@<key>/<i>/<j>/...` is an EXISTING node: start at the root stored under <key> (as
-        currently readable), take child i, then its child j, ... (at least one index).
-        The first token is the root and must be `n..`.
-  c10 ref <key>                         -> ok | err:InvalidInput (plain columns: "No Rc")
-  c10 deref <key>                       -> ok | err:InvalidConfiguration (append_only; no root)
-  c10 process | flush | enact | clean   -> ok          (process = ONE queued commit)
+  P1'' transactions        `TState`, `TDb` (section "Transactions"): `commit_changes` with several
+                           operations, one or several columns, the LIFO free-entry stack (address
+                           reuse), `to_dereference` counters, commit id counter, stored background
+                           error; `process_commits` in the planning order of `write_plan` (all root
+                           changes, then all node changes).  THE DRIVER RUNS THIS MODEL.  `PState` /
+                           `Pending` (one operation per commit, never reused counter addresses) is
+                           the model of theorems (4)-(13) and of the crash model
+                           (Pdb/Model/MultiTreeCrash.lean); a one-operation transaction of `TState`
+                           does what `PState` does.
+
+Driver protocol (command word `c10`, stateful)
+  c10 init <col> [<col> ...]            -> ok      columns 0, 1, ..: append_only | rc | plain
+                                                    (multitree variants; rc = ref_counted roots)
+                                                    | kv (a plain hash column, no counting)
+  c10 tx <op> ; <op> ; ...              -> ok | err:InvalidInput | err:InvalidConfiguration | err:Background
+        one transaction; <op> =
+          <col> insert <key> <tok>...   InsertTree; the tree in pre-order: `n<k>:<data>` is a NEW node
+                                        with k children (the next k subtrees), `@<key>/<i>/<j>/...` an
+                                        EXISTING node: start at the root stored under <key> in the
+                                        column of the operation (as readable BEFORE the call), take
+                                        child i, then its child j, ... (at least one index);
+                                        `#<address>` a literal address.  The first token is the root
+                                        and must be `n..`.
+          <col> ref <key> | <col> deref <key>          ReferenceTree / DereferenceTree
+          <col> set <key> <value> | <col> del <key> | <col> kref <key>     Set / Dereference / Reference
+  c10 insert <key> <tok>... | ref <key> | deref <key>   the one-operation transactions on column 0
+  c10 process | flush | enact | clean | reindex   -> ok      (process = ONE queued commit; reindex =
+                                                    one `process_reindex` batch of a growing
+                                                    ref-count table: invisible at this level,
+                                                    see Pdb/Model/RcTables.lean)
   c10 reopen                            -> ok          (drain, close, open)
-  c10 root <key>                        -> none | some <data> <number of children>
-  c10 node <key>/<i>/...                -> none | some <data> <number of children>
-  c10 tree <key>                        -> none | some (<data> <child> <child> ...)   logical content
-  c10 count                             -> <n> | err:InvalidConfiguration
+  c10 bgerr                             -> ok          (a background worker stores an error)
+  c10 root [<col>:]<key>                -> none | some <data> <number of children>
+  c10 node [<col>:]<key>/<i>/...        -> none | some <data> <number of children>
+  c10 tree [<col>:]<key>                -> none | some (<data> <child> <child> ...)   logical content
+  c10 get <col>:<key>                   -> none | some <value>         (kv column)
+  c10 count [<col>]                     -> <n> | err:InvalidConfiguration
         get_num_column_value_entries: claimed node slots (claimed when the commit returns) +
         root slots (written in process) - freed slots; the call fails while any multipart entry
         exists (table.rs get_num_entries).
 -/
 import Pdb.Gen.Consts
 import Pdb.Gen.Bits
+import Pdb.Model.Validate
 
 namespace Pdb.MultiTree
 
@@ -63,6 +85,7 @@ inductive Err where
   | invalidConfiguration
   | invalidValueData
   | outOfFuel            -- model artefact, proved unreachable (C10_walk_fuel)
+  | background           -- `Error::Background`: a stored background error refuses every commit
 deriving DecidableEq, Repr
 
 def Err.show : Err → String
@@ -70,6 +93,7 @@ def Err.show : Err → String
   | .invalidConfiguration => "err:InvalidConfiguration"
   | .invalidValueData => "err:InvalidValueData"
   | .outOfFuel => "err:model-out-of-fuel"
+  | .background => "err:Background"
 
 /-! ## P3: node packing -/
 
@@ -449,9 +473,491 @@ def countEntries (len : D → Nat) (s : PState K D) : Except Err Nat :=
   if multi then .error .invalidConfiguration
   else .ok (s.heap.nodes.size + (ovs.map FMap.size).sum + s.heap.roots.size)
 
-/-! ### Driver (K = D = String) -/
+/-! ## Transactions: `commit_changes` with several operations, literally
 
-abbrev DState := Option (PState String String)
+`DbInner::commit_changes` (src/db.rs)
+  1. `validate_change` on EVERY operation, against the state before the call (`validateOps`,
+     through `Pdb.Validate.validateChange`);
+  2. the stored background error refuses the call (`TDb.commit`);
+  3. the assembly loop (`asmOp`): InsertTree claims its node addresses (`claim_tree_values`:
+     `claim_entries` pops the free-entry stack, then bumps the fill mark) and pushes
+     `Set(key, root)` to `changes` and the NewValue / IncrementReference node changes to
+     `node_changes`; ReferenceTree pushes `Reference(key)` to `changes` (nothing on append-only
+     columns); DereferenceTree reads the root AS VISIBLE BEFORE THE CALL, bumps the
+     `to_dereference` counter of the key and pushes `DereferenceChildren(key, children)`;
+  4. `commit_raw`: id counter + 1, the change set goes into the commit overlay and the queue.
+`IndexedChangeSet::write_plan` (process_commits) applies ALL `changes` first, THEN all
+`node_changes`, each list in push order (`applyChangeSet`).  So inside one transaction every root
+`Set` / `Reference` is applied before every node write and before every dereference walk,
+whatever the order of the operations was.
+
+Addresses: one abstract address space per column.  `claimEntries` is `ValueTable::claim_entries`
+(LIFO free stack first, then the fill mark `heap.next`); freed addresses are pushed by the
+dereference walk in the order `clear_slot` is called (`derefChildrenF`).  Abstractions: the size
+tiers (one stack per tier in the implementation), the assignment of the claimed slots to the new
+nodes (parent-first per tier in `claim_node`; here in the order of `insRef`: children before
+parent - the theorems hold for every order, Pdb/Proofs/DumpCheckRcOps.lean) and the root value
+slots, which the implementation takes from the same stacks when a root is written. -/
+
+/-- `okOr a r`: the result of an operation, or the unchanged state if it was rejected -/
+def okOr {α : Type} (a : α) : Except Err α → α
+  | .ok a' => a'
+  | .error _ => a
+
+/-- A tree operation of a transaction. -/
+inductive Op (K D : Type) where
+  | insert (k : K) (t : NewNode D)
+  | reference (k : K)
+  | dereference (k : K)
+
+/-- `IndexedChangeSet::changes` of a multitree column -/
+inductive RootChange (K D : Type) where
+  | set (k : K) (root : Node D)       -- `Operation::Set(key, packed root)`
+  | reference (k : K)                 -- `Operation::Reference(key)`
+
+/-- `NodeChange` -/
+inductive NodeChange (K D : Type) where
+  | newValue (a : Addr) (n : Node D)
+  | incRef (a : Addr)
+  | derefChildren (k : K) (children : List Addr)
+
+/-- `IndexedChangeSet` -/
+structure ChangeSet (K D : Type) where
+  changes : List (RootChange K D)
+  nodeChanges : List (NodeChange K D)
+
+def ChangeSet.empty : ChangeSet K D := ⟨[], []⟩
+
+mutual
+  /-- number of NEW nodes of a reference (= slots claimed) -/
+  def NRef.news : NRef D → Nat
+    | .new _ cs => cs.news + 1
+    | .existing _ => 0
+  def NRefs.news : NRefs D → Nat
+    | .nil => 0
+    | .cons r rs => r.news + rs.news
+end
+
+mutual
+  /-- largest number of children of a NEW node of the reference -/
+  def NRef.maxFan : NRef D → Nat
+    | .new _ cs => max cs.length cs.maxFan
+    | .existing _ => 0
+  def NRefs.maxFan : NRefs D → Nat
+    | .nil => 0
+    | .cons r rs => max r.maxFan rs.maxFan
+end
+
+def NewNode.maxFan (t : NewNode D) : Nat := max t.children.length t.children.maxFan
+
+mutual
+  /-- `claim_node` / `claim_children_to_data` as data: the node changes of a reference, the rest of
+      the supply of claimed addresses, the address of the node. -/
+  def planRef (ap : Bool) (fresh : List Addr) : NRef D → List (NodeChange K D) × List Addr × Addr
+    | .existing a => (if ap then [] else [.incRef a], fresh, a)
+    | .new d cs =>
+      match planRefs ap fresh cs with
+      | (chs, f1, as) => (chs ++ [.newValue (f1.headD 0) ⟨d, as⟩], f1.tail, f1.headD 0)
+  def planRefs (ap : Bool) (fresh : List Addr) :
+      NRefs D → List (NodeChange K D) × List Addr × List Addr
+    | .nil => ([], fresh, [])
+    | .cons r rs =>
+      match planRef ap fresh r with
+      | (c1, f1, a) =>
+        match planRefs ap f1 rs with
+        | (c2, f2, as) => (c1 ++ c2, f2, a :: as)
+end
+
+/-- `ValueTable::claim_entries(n)`: (claimed addresses, free stack, fill mark). -/
+def claimEntries : Nat → List Addr → Addr → List Addr × List Addr × Addr
+  | 0, free, next => ([], free, next)
+  | n + 1, a :: free, next =>
+    match claimEntries n free next with
+    | (c, f, nx) => (a :: c, f, nx)
+  | n + 1, [], next =>
+    match claimEntries n [] (next + 1) with
+    | (c, f, nx) => (next :: c, f, nx)
+
+/-- One multitree column. -/
+structure TState (K D : Type) where
+  variant : Variant
+  heap : Heap K D                   -- tables; `heap.next` = fill mark (claimed slots included)
+  free : List Addr                  -- free-entry stack, top first
+  queue : List (ChangeSet K D)      -- queued commits, oldest first (= their commit overlay)
+  toDeref : FMap K Nat              -- `Trees::to_dereference`: queued DereferenceTrees per root
+
+def TState.init (v : Variant) : TState K D := ⟨v, Heap.empty, [], [], .empty⟩
+
+def rootHit (k : K) : RootChange K D → Option (Node D)
+  | .set k' r => if k' = k then some r else none
+  | .reference _ => none
+
+def nodeHit (a : Addr) : NodeChange K D → Option (Node D)
+  | .newValue a' n => if a' = a then some n else none
+  | _ => none
+
+/-- what one queued commit put into the commit overlay (`copy_to_overlay`: the last `Set` of a
+    key wins) -/
+def csRoot (k : K) (cs : ChangeSet K D) : Option (Node D) := cs.changes.reverse.findSome? (rootHit k)
+def csNode (a : Addr) (cs : ChangeSet K D) : Option (Node D) :=
+  cs.nodeChanges.reverse.findSome? (nodeHit a)
+
+def ovRootT (q : List (ChangeSet K D)) (k : K) : Option (Node D) := q.reverse.findSome? (csRoot k)
+def ovNodeT (q : List (ChangeSet K D)) (a : Addr) : Option (Node D) := q.reverse.findSome? (csNode a)
+
+/-- `get(col, key, false)`: commit overlay, then tables. -/
+def TState.viewRoot (s : TState K D) (k : K) : Option (Node D) :=
+  (ovRootT s.queue k).or ((s.heap.roots.get k).map Prod.fst)
+
+/-- `get_node`: address overlay, then tables. -/
+def TState.viewNode (s : TState K D) (a : Addr) : Option (Node D) :=
+  (ovNodeT s.queue a).or (s.heap.nodes.get a)
+
+/-! ### validation -/
+
+def Variant.opts : Variant → Validate.ColOpts
+  | .appendOnly => ⟨false, true, false, true⟩
+  | .rcRoots => ⟨false, true, true, false⟩
+  | .plain => ⟨false, true, false, false⟩
+
+/-- what `validate_change` looks at -/
+def Op.kind (view : K → Option (Node D)) : Op K D → Validate.OpKind
+  | .insert _ t => .insertTree t.maxFan
+  | .reference _ => .refTree
+  | .dereference k => .derefTree (view k).isSome
+
+def verdictRes : Validate.Verdict → Except Err Unit
+  | .ok => .ok ()
+  | .invalidInput => .error .invalidInput
+  | .invalidConfiguration => .error .invalidConfiguration
+
+/-- first phase of `commit_changes` on this column: the verdict of the first operation that is
+    not ok -/
+def validateOps (v : Variant) (view : K → Option (Node D)) : List (Op K D) → Validate.Verdict
+  | [] => .ok
+  | op :: ops =>
+    match Validate.validateChange v.opts (op.kind view) with
+    | .ok => validateOps v view ops
+    | e => e
+
+/-! ### assembly (claims, counters, change set) -/
+
+/-- what the assembly loop has accumulated for one column -/
+structure Asm (K D : Type) where
+  free : List Addr
+  next : Addr
+  toDeref : FMap K Nat
+  cs : ChangeSet K D
+
+/-- one iteration of the loop of `commit_changes` (multitree branch) -/
+def asmOp (v : Variant) (view : K → Option (Node D)) (acc : Asm K D) : Op K D → Except Err (Asm K D)
+  | .insert k t =>
+    match claimEntries t.children.news acc.free acc.next with
+    | (claimed, free', next') =>
+      match planRefs (decide (v = .appendOnly)) claimed t.children with
+      | (chs, _, as) =>
+        .ok { free := free', next := next', toDeref := acc.toDeref,
+              cs := ⟨acc.cs.changes ++ [.set k ⟨t.data, as⟩], acc.cs.nodeChanges ++ chs⟩ }
+  | .reference k =>
+    if v = .appendOnly then .ok acc
+    else .ok { acc with cs := ⟨acc.cs.changes ++ [.reference k], acc.cs.nodeChanges⟩ }
+  | .dereference k =>
+    if v = .appendOnly then .error .invalidConfiguration
+    else
+      match view k with
+      | none => .error .invalidConfiguration            -- "No entry for tree root"
+      | some r =>
+        .ok { acc with toDeref := acc.toDeref.set k (some ((acc.toDeref.get k).getD 0 + 1)),
+                       cs := ⟨acc.cs.changes, acc.cs.nodeChanges ++ [.derefChildren k r.children]⟩ }
+
+/-- the loop: stops at the first error and keeps what was claimed / counted before it -/
+def asmOps (v : Variant) (view : K → Option (Node D)) :
+    Asm K D → List (Op K D) → Asm K D × Except Err Unit
+  | acc, [] => (acc, .ok ())
+  | acc, op :: ops =>
+    match asmOp v view acc op with
+    | .ok acc' => asmOps v view acc' ops
+    | .error e => (acc, .error e)
+
+def TState.asm0 (s : TState K D) : Asm K D := ⟨s.free, s.heap.next, s.toDeref, .empty⟩
+
+/-- the claims / counters of an assembly written back, nothing queued -/
+def TState.withAsm (s : TState K D) (a : Asm K D) : TState K D :=
+  { s with heap := { s.heap with next := a.next }, free := a.free, toDeref := a.toDeref }
+
+/-- `commit_changes` on a database with this one column and no background error: validate
+    everything, assemble, queue.  The state is returned in every case (an error after validation
+    would leave the claims of the earlier operations in place; `asmOps_ok_of_valid`,
+    Pdb/Proofs/C10Tx.lean: it cannot happen here, the view does not change in between). -/
+def TState.commit (s : TState K D) (ops : List (Op K D)) : TState K D × Except Err Unit :=
+  match validateOps s.variant s.viewRoot ops with
+  | .ok =>
+    match asmOps s.variant s.viewRoot s.asm0 ops with
+    | (a, .ok ()) => ({ s.withAsm a with queue := s.queue ++ [a.cs] }, .ok ())
+    | (a, .error e) => (s.withAsm a, .error e)
+  | e => (s, verdictRes e)
+
+/-! ### processing (`process_commits` / `IndexedChangeSet::write_plan`) -/
+
+def applyRootChange (v : Variant) (h : Heap K D) : RootChange K D → Heap K D
+  | .set k root => { h with roots := h.roots.set k (some (rootEntry v (h.roots.get k) root)) }
+  | .reference k => okOr h (referenceTree v h k)
+
+/-- `derefStep` that also records the freed addresses (`clear_slot` pushes the slot on the
+    free-entry stack before the walk descends into the children). -/
+def derefStepF (rec : Heap K D × List Addr → List Addr → Except Err (Heap K D × List Addr))
+    (hf : Heap K D × List Addr) (a : Addr) : Except Err (Heap K D × List Addr) :=
+  let node := (hf.1.nodes.get a).map (·.children)
+  match decRef hf.1 a with
+  | (true, h1) => .ok (h1, hf.2)
+  | (false, h1) =>
+    match node with
+    | some kids => rec (h1, a :: hf.2) kids
+    | none => .error .invalidConfiguration
+
+def derefChildrenF : Nat → Heap K D × List Addr → List Addr → Except Err (Heap K D × List Addr)
+  | 0, _, _ => .error .outOfFuel
+  | fuel + 1, hf, cs => cs.foldlM (derefStepF (derefChildrenF fuel)) hf
+
+/-- `derefProcess` with the free-entry stack -/
+def derefProcessF (v : Variant) (hf : Heap K D × List Addr) (k : K) (children : List Addr) :
+    Except Err (Heap K D × List Addr) :=
+  match hf.1.roots.get k with
+  | none => .ok hf
+  | some (r, c) =>
+    if v = .rcRoots ∧ c > 1 then .ok ({ hf.1 with roots := hf.1.roots.set k (some (r, c - 1)) }, hf.2)
+    else
+      let h1 := { hf.1 with roots := hf.1.roots.set k none }
+      derefChildrenF (walkFuel h1) (h1, hf.2) children
+
+def applyNodeChange (v : Variant) (hf : Heap K D × List Addr) :
+    NodeChange K D → Except Err (Heap K D × List Addr)
+  | .newValue a n => .ok ({ hf.1 with nodes := hf.1.nodes.set a (some n) }, hf.2)
+  | .incRef a => .ok (incRef hf.1 a, hf.2)
+  | .derefChildren k cs => derefProcessF v hf k cs
+
+/-- `write_plan`: all `changes`, then all `node_changes`. -/
+def applyChangeSet (v : Variant) (hf : Heap K D × List Addr) (cs : ChangeSet K D) :
+    Except Err (Heap K D × List Addr) :=
+  cs.nodeChanges.foldlM (applyNodeChange v) (cs.changes.foldl (applyRootChange v) hf.1, hf.2)
+
+def derefKey : NodeChange K D → Option K
+  | .derefChildren k _ => some k
+  | _ => none
+
+/-- `to_dereference` bookkeeping of process_commits: one less per processed DereferenceChildren -/
+def decToDeref (m : FMap K Nat) (k : K) : FMap K Nat :=
+  m.set k (if (m.get k).getD 0 > 1 then some ((m.get k).getD 0 - 1) else none)
+
+/-- `process_commits`: the oldest queued commit reaches the tables. -/
+def TState.process (s : TState K D) : Except Err (TState K D) :=
+  match s.queue with
+  | [] => .ok s
+  | cs :: q =>
+    match applyChangeSet s.variant (s.heap, s.free) cs with
+    | .ok (h, f) =>
+      .ok { s with heap := h, free := f, queue := q,
+                   toDeref := (cs.nodeChanges.filterMap derefKey).foldl decToDeref s.toDeref }
+    | .error e => .error e
+
+def TState.processAll : Nat → TState K D → Except Err (TState K D)
+  | 0, s => .ok s
+  | n + 1, s =>
+    match s.process with
+    | .ok s' => TState.processAll n s'
+    | .error e => .error e
+
+def isNewValue : NodeChange K D → Bool
+  | .newValue _ _ => true
+  | _ => false
+
+def newNodeOf : NodeChange K D → Option (Node D)
+  | .newValue _ n => some n
+  | _ => none
+
+/-- `get_num_column_value_entries`: table nodes + claimed slots of queued commits + root slots;
+    an error while any multipart entry exists. -/
+def TState.countEntries (len : D → Nat) (s : TState K D) : Except Err Nat :=
+  let claimed : List (Node D) := s.queue.flatMap (fun cs => cs.nodeChanges.filterMap newNodeOf)
+  let multi := !(s.heap.nodes.all (fun _ n => !isMultipart len s.variant false n)) ||
+    claimed.any (fun n => isMultipart len s.variant false n) ||
+    !(s.heap.roots.all (fun _ e => !isMultipart len s.variant true e.1))
+  if multi then .error .invalidConfiguration
+  else .ok (s.heap.nodes.size + claimed.length + s.heap.roots.size)
+
+/-! ### the database: several columns, commit id counter, stored background error -/
+
+/-- A plain hash column (no counting): enough to put key-value operations, valid and invalid,
+    into the same transaction as tree operations. -/
+structure KvCol (K D : Type) where
+  table : FMap K D
+  queue : List (List (K × Option D))       -- queued commits: Set / Dereference per key
+
+inductive Col (K D : Type) where
+  | tree (s : TState K D)
+  | kv (c : KvCol K D)
+
+def Col.opts : Col K D → Validate.ColOpts
+  | .tree s => s.variant.opts
+  | .kv _ => ⟨false, false, false, false⟩
+
+structure TDb (K D : Type) where
+  cols : List (Col K D)
+  nextId : Nat                 -- `CommitQueue::record_id`
+  bgErr : Bool                 -- `bg_err` is set
+
+/-- `Operation` -/
+inductive DbOp (K D : Type) where
+  | set (k : K) (v : D)
+  | del (k : K)
+  | ref (k : K)
+  | tree (op : Op K D)
+
+def Col.view : Col K D → K → Option (Node D)
+  | .tree s => s.viewRoot
+  | .kv _ => fun _ => none
+
+def DbOp.kind (view : K → Option (Node D)) : DbOp K D → Validate.OpKind
+  | .set _ _ => .set
+  | .del _ => .deref
+  | .ref _ => .ref
+  | .tree op => op.kind view
+
+/-- the `OpKind` of operation `op` on column `c` of `db` (no column: any view will do, the
+    verdict is InvalidInput) -/
+def TDb.kindAt (db : TDb K D) (c : Nat) (op : DbOp K D) : Validate.OpKind :=
+  op.kind ((db.cols[c]?.map Col.view).getD (fun _ => none))
+
+/-- phase 1 of `commit_changes`: `validate_change` on every operation -/
+def TDb.validate (db : TDb K D) (tx : List (Nat × DbOp K D)) : Validate.Verdict :=
+  Validate.validateTx (db.cols.map Col.opts) (tx.map (fun cop => (cop.1, db.kindAt cop.1 cop.2)))
+
+/-- per column: what the assembly loop has built so far -/
+inductive ColAcc (K D : Type) where
+  | tree (a : Asm K D)
+  | kv (l : List (K × Option D))
+
+def Col.acc0 : Col K D → ColAcc K D
+  | .tree s => .tree s.asm0
+  | .kv _ => .kv []
+
+/-- one iteration of the assembly loop of `commit_changes` -/
+def asmDbOp (db : TDb K D) (accs : List (ColAcc K D)) (c : Nat) (op : DbOp K D) :
+    Except Err (List (ColAcc K D)) :=
+  match db.cols[c]?, accs[c]?, op with
+  | some (.tree s), some (.tree a), .tree top =>
+    match asmOp s.variant s.viewRoot a top with
+    | .ok a' => .ok (accs.set c (.tree a'))
+    | .error e => .error e
+  | some (.tree _), _, _ => .error .invalidConfiguration   -- "Invalid operation for multitree column"
+  | some (.kv _), some (.kv l), .set k v => .ok (accs.set c (.kv (l ++ [(k, some v)])))
+  | some (.kv _), some (.kv l), .del k => .ok (accs.set c (.kv (l ++ [(k, none)])))
+  | some (.kv _), some (.kv l), .ref _ => .ok (accs.set c (.kv l))   -- refused by copy_to_overlay
+  | _, _, _ => .error .invalidInput
+
+def asmDb (db : TDb K D) :
+    List (ColAcc K D) → List (Nat × DbOp K D) → List (ColAcc K D) × Except Err Unit
+  | accs, [] => (accs, .ok ())
+  | accs, (c, op) :: tx =>
+    match asmDbOp db accs c op with
+    | .ok accs' => asmDb db accs' tx
+    | .error e => (accs, .error e)
+
+/-- claims / counters written back, nothing queued -/
+def Col.withAcc : Col K D → ColAcc K D → Col K D
+  | .tree s, .tree a => .tree (s.withAsm a)
+  | c, _ => c
+
+/-- claims / counters written back and the change set queued (`commit_raw`) -/
+def Col.pushAcc : Col K D → ColAcc K D → Col K D
+  | .tree s, .tree a => .tree { s.withAsm a with queue := s.queue ++ [a.cs] }
+  | .kv c, .kv l => .kv { c with queue := c.queue ++ [l] }
+  | c, _ => c
+
+def zipCols (f : Col K D → ColAcc K D → Col K D) : List (Col K D) → List (ColAcc K D) → List (Col K D)
+  | c :: cs, a :: as => f c a :: zipCols f cs as
+  | cs, _ => cs
+
+inductive Res where
+  | ok
+  | err (e : Err)
+deriving DecidableEq, Repr
+
+/-- `commit_changes` + `commit_raw` in the FIXED order (HEAD, after ba82c54 / d908c4b / f67544a):
+    validate all, test the background error, then claim / count / assemble, then queue.
+    (T0 order obligations `commitChanges_validate_before_claim`, `commitChanges_bgerr_before_claim`
+    tie this order to the source, Pdb/Proofs/Order.lean.) -/
+def TDb.commit (db : TDb K D) (tx : List (Nat × DbOp K D)) : TDb K D × Res :=
+  match db.validate tx with
+  | .ok =>
+    if db.bgErr then (db, .err .background)
+    else
+      match asmDb db (db.cols.map Col.acc0) tx with
+      | (accs, .ok ()) => ({ db with cols := zipCols Col.pushAcc db.cols accs, nextId := db.nextId + 1 }, .ok)
+      | (accs, .error e) => ({ db with cols := zipCols Col.withAcc db.cols accs }, .err e)
+  | .invalidInput => (db, .err .invalidInput)
+  | .invalidConfiguration => (db, .err .invalidConfiguration)
+
+/-- the order BEFORE f67544a (defect F23): the background error is only tested in `commit_raw`,
+    after the claims -/
+def TDb.commitF23 (db : TDb K D) (tx : List (Nat × DbOp K D)) : TDb K D × Res :=
+  match db.validate tx with
+  | .ok =>
+    match asmDb db (db.cols.map Col.acc0) tx with
+    | (accs, .ok ()) =>
+      if db.bgErr then ({ db with cols := zipCols Col.withAcc db.cols accs }, .err .background)
+      else ({ db with cols := zipCols Col.pushAcc db.cols accs, nextId := db.nextId + 1 }, .ok)
+    | (accs, .error e) => ({ db with cols := zipCols Col.withAcc db.cols accs }, .err e)
+  | .invalidInput => (db, .err .invalidInput)
+  | .invalidConfiguration => (db, .err .invalidConfiguration)
+
+/-- validation interleaved with the assembly loop (the order BEFORE ba82c54 / d908c4b, defect F1):
+    an operation is checked when the loop reaches it, after the claims of the earlier ones -/
+def asmDbF1 (db : TDb K D) :
+    List (ColAcc K D) → List (Nat × DbOp K D) → List (ColAcc K D) × Res
+  | accs, [] => (accs, .ok)
+  | accs, (c, op) :: tx =>
+    match Validate.validateAt (db.cols.map Col.opts) c (db.kindAt c op) with
+    | .ok =>
+      match asmDbOp db accs c op with
+      | .ok accs' => asmDbF1 db accs' tx
+      | .error e => (accs, .err e)
+    | .invalidInput => (accs, .err .invalidInput)
+    | .invalidConfiguration => (accs, .err .invalidConfiguration)
+
+def TDb.commitF1 (db : TDb K D) (tx : List (Nat × DbOp K D)) : TDb K D × Res :=
+  match asmDbF1 db (db.cols.map Col.acc0) tx with
+  | (accs, .ok) =>
+    if db.bgErr then ({ db with cols := zipCols Col.withAcc db.cols accs }, .err .background)
+    else ({ db with cols := zipCols Col.pushAcc db.cols accs, nextId := db.nextId + 1 }, .ok)
+  | (accs, e) => ({ db with cols := zipCols Col.withAcc db.cols accs }, e)
+
+def KvCol.process (c : KvCol K D) : KvCol K D :=
+  match c.queue with
+  | [] => c
+  | l :: q => ⟨l.foldl (fun t kv => t.set kv.1 kv.2) c.table, q⟩
+
+def Col.process : Col K D → Except Err (Col K D)
+  | .tree s => s.process.map Col.tree
+  | .kv c => .ok (.kv c.process)
+
+/-- `process_commits`: the oldest commit reaches the tables of every column (every commit has
+    queued one entry per column) -/
+def TDb.process (db : TDb K D) : Except Err (TDb K D) :=
+  (db.cols.mapM Col.process).map (fun cols => { db with cols := cols })
+
+def KvCol.get (c : KvCol K D) (k : K) : Option D :=
+  match c.queue.reverse.findSome? (fun l => l.reverse.findSome? (fun kv => if kv.1 = k then some kv.2 else none)) with
+  | some v => v
+  | none => c.table.get k
+
+/-! ### Driver (K = D = String)
+
+The `c10` command runs the transactional database model `TDb` (one or several columns).  The
+functions `resolvePath` / `parseTree` / `renderTree` / `pstep` over the one-operation pipeline
+state `PState` are kept: the crash driver (Pdb/Model/C02xDriver.lean) uses them. -/
+
+abbrev DState := Option (TDb String String)
 
 /-- value token `v<len>_<seed>` -/
 def tokLen (v : String) : Nat :=
@@ -464,44 +970,57 @@ def parsePath (s : String) : Option (String × List Nat) :=
     else (idx.mapM (fun (x : String) => x.toNat?)).map (fun is => (key, is))
   | [] => none
 
-def resolvePath (s : PState String String) (key : String) (idx : List Nat) : Option Addr :=
-  match viewRoot s key, idx with
+/-- Follow a logical path through a root view and a node view. -/
+def resolvePathV (vr : String → Option (Node String)) (vn : Addr → Option (Node String))
+    (key : String) (idx : List Nat) : Option Addr :=
+  match vr key, idx with
   | some r, i :: rest =>
-    rest.foldlM (fun a j => (viewNode s a).bind (fun n => n.children[j]?)) =<< r.children[i]?
+    rest.foldlM (fun a j => (vn a).bind (fun n => n.children[j]?)) =<< r.children[i]?
   | _, _ => none
+
+def resolvePath (s : PState String String) (key : String) (idx : List Nat) : Option Addr :=
+  resolvePathV (viewRoot s) (viewNode s) key idx
 
 mutual
   /-- Parse one subtree from the token stream (pre-order). -/
-  def parseRef (s : PState String String) : Nat → List String → Option (NRef String × List String)
+  def parseRefV (res : String → List Nat → Option Addr) :
+      Nat → List String → Option (NRef String × List String)
     | 0, _ => none
     | _ + 1, [] => none
     | fuel + 1, tok :: rest =>
       if tok.startsWith "@" then
         match parsePath (tok.drop 1).toString with
-        | some (key, idx) => (resolvePath s key idx).map (fun a => (.existing a, rest))
+        | some (key, idx) => (res key idx).map (fun a => (.existing a, rest))
         | none => none
+      else if tok.startsWith "#" then
+        -- a literal address (scenario "dangling Existing": an address that names no node)
+        ((tok.drop 1).toString.toNat?).map (fun a => (.existing a, rest))
       else if tok.startsWith "n" then
         match ((tok.drop 1).toString).splitOn ":" with
         | [k, d] =>
           match k.toNat? with
-          | some k => (parseRefs s fuel k rest).map (fun (cs, rest') => (.new d cs, rest'))
+          | some k => (parseRefsV res fuel k rest).map (fun (cs, rest') => (.new d cs, rest'))
           | none => none
         | _ => none
       else none
-  def parseRefs (s : PState String String) :
+  def parseRefsV (res : String → List Nat → Option Addr) :
       Nat → Nat → List String → Option (NRefs String × List String)
     | 0, _, _ => none
     | _ + 1, 0, toks => some (.nil, toks)
     | fuel + 1, k + 1, toks =>
-      match parseRef s fuel toks with
-      | some (r, rest) => (parseRefs s fuel k rest).map (fun (rs, rest') => (.cons r rs, rest'))
+      match parseRefV res fuel toks with
+      | some (r, rest) => (parseRefsV res fuel k rest).map (fun (rs, rest') => (.cons r rs, rest'))
       | none => none
 end
 
-def parseTree (s : PState String String) (toks : List String) : Option (NewNode String) :=
-  match parseRef s (2 * toks.length + 2) toks with
+def parseTreeV (res : String → List Nat → Option Addr) (toks : List String) :
+    Option (NewNode String) :=
+  match parseRefV res (2 * toks.length + 2) toks with
   | some (.new d cs, []) => some ⟨d, cs⟩
   | _ => none
+
+def parseTree (s : PState String String) (toks : List String) : Option (NewNode String) :=
+  parseTreeV (resolvePath s) toks
 
 def showNode : Option (Node String) → String
   | none => "none"
@@ -514,12 +1033,16 @@ def renderNode (view : Addr → Option (Node String)) : Nat → Addr → String
     | none => "?"
     | some n => "(" ++ n.data ++ String.join (n.children.map (fun c => " " ++ renderNode view fuel c)) ++ ")"
 
-def renderTree (s : PState String String) (k : String) : String :=
-  match viewRoot s k with
+def renderTreeV (vr : String → Option (Node String)) (vn : Addr → Option (Node String))
+    (fuel : Nat) (k : String) : String :=
+  match vr k with
   | none => "none"
   | some r =>
     "some (" ++ r.data ++
-      String.join (r.children.map (fun c => " " ++ renderNode (viewNode s) (s.heap.next + 1) c)) ++ ")"
+      String.join (r.children.map (fun c => " " ++ renderNode vn fuel c)) ++ ")"
+
+def renderTree (s : PState String String) (k : String) : String :=
+  renderTreeV (viewRoot s) (viewNode s) (s.heap.next + 1) k
 
 def showRes (r : Except Err (PState String String)) (s : PState String String) :
     PState String String × String :=
@@ -533,6 +1056,7 @@ def parseVariant : String → Option Variant
   | "plain" => some .plain
   | _ => none
 
+/-- the one-operation pipeline driver (kept for reference; `step` below runs `TDb`) -/
 def pstep (s : PState String String) : List String → PState String String × String
   | "insert" :: key :: toks =>
     match parseTree s toks with
@@ -557,16 +1081,146 @@ def pstep (s : PState String String) : List String → PState String String × S
     | .error e => (s, e.show)
   | _ => (s, "bad-op")
 
+/-! #### the transactional driver -/
+
+abbrev TS := TState String String
+abbrev DB := TDb String String
+
+def parseCol : String → Option (Col String String)
+  | "kv" => some (.kv ⟨.empty, []⟩)
+  | s => (parseVariant s).map (fun v => .tree (TState.init v))
+
+/-- `<col>:<key>` or `<key>` (column 0) -/
+def splitCol (s : String) : Option (Nat × String) :=
+  match s.splitOn ":" with
+  | [k] => some (0, k)
+  | [c, k] => c.toNat?.map (fun c => (c, k))
+  | _ => none
+
+def treeCol (db : DB) (c : Nat) : Option TS :=
+  match db.cols[c]? with
+  | some (.tree s) => some s
+  | _ => none
+
+def TS.resolve (s : TS) (key : String) (idx : List Nat) : Option Addr :=
+  resolvePathV s.viewRoot s.viewNode key idx
+
+/-- one operation of a `tx` line: `<col> insert <key> <tok>...` | `<col> ref <key>` |
+    `<col> deref <key>` | `<col> set <key> <val>` | `<col> del <key>` | `<col> kref <key>` -/
+def parseDbOp (db : DB) : List String → Option (Nat × DbOp String String)
+  | c :: "insert" :: key :: toks =>
+    match c.toNat? with
+    | some c =>
+      -- `Existing` paths are resolved in the column of the operation, as visible before the call
+      let res := match treeCol db c with
+        | some s => s.resolve
+        | none => fun _ _ => none
+      (parseTreeV res toks).map (fun t => (c, .tree (.insert key t)))
+    | none => none
+  | [c, "ref", key] => c.toNat?.map (fun c => (c, .tree (.reference key)))
+  | [c, "deref", key] => c.toNat?.map (fun c => (c, .tree (.dereference key)))
+  | [c, "set", key, v] => c.toNat?.map (fun c => (c, .set key v))
+  | [c, "del", key] => c.toNat?.map (fun c => (c, .del key))
+  | [c, "kref", key] => c.toNat?.map (fun c => (c, .ref key))
+  | _ => none
+
+/-- split a token list at the ";" tokens -/
+def splitSemi : List String → List (List String)
+  | [] => [[]]
+  | t :: rest =>
+    match splitSemi rest with
+    | cur :: more => if t = ";" then [] :: cur :: more else (t :: cur) :: more
+    | [] => [[t]]
+
+def Res.show : Res → String
+  | .ok => "ok"
+  | .err e => e.show
+
+def dbCommit (db : DB) (ops : List (List String)) : DB × String :=
+  match ops.mapM (parseDbOp db) with
+  | some tx => let (db', r) := db.commit tx; (db', r.show)
+  | none => (db, "bad-op")
+
+def dbProcessAll : Nat → DB → Except Err DB
+  | 0, db => .ok db
+  | n + 1, db =>
+    match db.process with
+    | .ok db' => dbProcessAll n db'
+    | .error e => .error e
+
+def Col.queueLen : Col String String → Nat
+  | .tree s => s.queue.length
+  | .kv c => c.queue.length
+
+def dbStep (db : DB) : List String → DB × String
+  | "tx" :: rest => dbCommit db (splitSemi rest)
+  | "insert" :: key :: toks => dbCommit db [("0" :: "insert" :: key :: toks)]
+  | ["ref", key] => dbCommit db [["0", "ref", key]]
+  | ["deref", key] => dbCommit db [["0", "deref", key]]
+  | ["bgerr"] => ({ db with bgErr := true }, "ok")
+  | ["process"] =>
+    match db.process with
+    | .ok db' => (db', "ok")
+    | .error e => (db, e.show)
+  | ["flush"] => (db, "ok")
+  | ["enact"] => (db, "ok")
+  | ["clean"] => (db, "ok")
+  | ["reindex"] => (db, "ok")
+  | ["reopen"] =>
+    match dbProcessAll ((db.cols.map Col.queueLen).foldl max 0) db with
+    | .ok db' => ({ db' with bgErr := false }, "ok")
+    | .error e => (db, e.show)
+  | ["root", ck] =>
+    match (splitCol ck).bind (fun (c, k) => (treeCol db c).map (fun s => showNode (s.viewRoot k))) with
+    | some o => (db, o)
+    | none => (db, "bad-op")
+  | ["node", cpath] =>
+    match splitCol cpath with
+    | some (c, path) =>
+      match treeCol db c, parsePath path with
+      | some s, some (key, idx) => (db, showNode ((s.resolve key idx).bind s.viewNode))
+      | _, _ => (db, "bad-op")
+    | none => (db, "bad-op")
+  | ["tree", ck] =>
+    match (splitCol ck).bind (fun (c, k) => (treeCol db c).map (fun s =>
+        renderTreeV s.viewRoot s.viewNode
+          (s.heap.nodes.size + (s.queue.map (fun cs => cs.nodeChanges.length)).sum + 1) k)) with
+    | some o => (db, o)
+    | none => (db, "bad-op")
+  | ["count"] =>
+    match treeCol db 0 with
+    | some s =>
+      match s.countEntries tokLen with
+      | .ok n => (db, toString n)
+      | .error e => (db, e.show)
+    | none => (db, "bad-op")
+  | ["count", c] =>
+    match c.toNat?.bind (treeCol db) with
+    | some s =>
+      match s.countEntries tokLen with
+      | .ok n => (db, toString n)
+      | .error e => (db, e.show)
+    | none => (db, "bad-op")
+  | ["get", ck] =>
+    match splitCol ck with
+    | some (c, k) =>
+      match db.cols[c]? with
+      | some (.kv kc) => (db, match kc.get k with | some v => "some " ++ v | none => "none")
+      | _ => (db, "bad-op")
+    | none => (db, "bad-op")
+  | ["nextid"] => (db, toString db.nextId)
+  | _ => (db, "bad-op")
+
 /-- Driver entry point: `c10 <args>`. -/
 def step (st : DState) (args : List String) : DState × String :=
   match args with
-  | ["init", v] =>
-    match parseVariant v with
-    | some v => (some (PState.init v), "ok")
+  | "init" :: vs =>
+    match vs.mapM parseCol with
+    | some cols => if cols.isEmpty then (st, "bad-op") else (some ⟨cols, 0, false⟩, "ok")
     | none => (st, "bad-op")
   | _ =>
     match st with
-    | some s => let (s', out) := pstep s args; (some s', out)
+    | some db => let (db', out) := dbStep db args; (some db', out)
     | none => (st, "bad-op")
 
 end Pdb.MultiTree
